@@ -15,5 +15,5 @@ CONSTANTS
   F6Quirk = FALSE
   F7Quirk = FALSE
   PoorShare = 0
-INVARIANTS ErrAgree ConformCounters ConformNet ConformChains ConformLogs ExactConservation ConformTxLayer OraclesHold Conservation Mirror ConformMods
+INVARIANTS BadRevRefused ErrAgree ConformCounters ConformNet ConformChains ConformLogs ExactConservation ConformTxLayer OraclesHold Conservation Mirror ConformMods
 CHECK_DEADLOCK TRUE
